@@ -72,6 +72,8 @@ class Ctx:
 
     def absorb(self, result: dict) -> None:
         for v in result.get("violations", ()):
+            if not isinstance(v, dict) or "signature" not in v:
+                return  # check-specific violation records, aggregated by the check itself
             self.violation(v["signature"], v["what"], v["case"], v.get("count", 1))
 
     # ------------------------------------------------------------------ parallel
